@@ -65,6 +65,11 @@ class Interp:
             for fn, ft in t.fields.items():
                 self._assume_wf_expr(t.acc(fn, e), ft)
             return t.wrap(e)
+        if isinstance(t, TDRec):
+            v = VDRec(p.fresh(hint, t.sort()), t)
+            for fn, ft in t.fields.items():
+                self._assume_wf_expr(t.val(fn, v.e), ft)
+            return v
         if isinstance(t, TList):
             arr = p.fresh(hint + "_arr", z3.ArraySort(z3.IntSort(), t.elem.sort()))
             n = p.fresh(hint + "_n", z3.IntSort())
@@ -234,6 +239,9 @@ class Interp:
             c = VTuple([self.clone_value(x, memo) for x in v.items], v._t)
         elif isinstance(v, VOptObj):
             c = VOptObj(v.present, self.clone_value(v.obj, memo))
+        elif _is_j(v):
+            from . import jsontree
+            return jsontree.clone(self, v, memo)
         else:
             c = v  # immutable wrappers
         memo[id(v)] = c
@@ -297,6 +305,13 @@ class Interp:
             return z3.BoolVal(len(v.items) > 0)
         if isinstance(v, VDictRec):
             return z3.BoolVal(len(v.fields) > 0)
+        if isinstance(v, VDRec):
+            return z3.BoolVal(True) if v.t.required else z3.Or([v.has(fn) for fn in v.t.optional] + [z3.BoolVal(False)])
+        if _is_j(v):
+            from . import jsontree
+            return jsontree.truth(self, v)
+        if isinstance(v, (VEmptyList, VEmptySet)):
+            return z3.BoolVal(False)
         if isinstance(v, VOptObj):
             return z3.And(v.present, self.truth(v.obj))
         if isinstance(v, VObj):
@@ -313,7 +328,7 @@ class Interp:
             return z3.Or([v.fields["has_" + k].e for k in keys] + [z3.BoolVal(False)])
         if hasattr(v, "truth_expr"):
             return v.truth_expr(self)
-        if isinstance(v, (VFunc, VClass, VModule, VRec, VUn, VOpaque, VExc, VPath)):
+        if isinstance(v, (VFunc, VClass, VModule, VRec, VUn, VOpaque, VExc, VPath, VNaN)):
             return z3.BoolVal(True)
         raise Unsupported("truth of %s" % type(v).__name__)
 
@@ -337,8 +352,13 @@ class Interp:
     def eq(self, a, b):
         if isinstance(a, VUndef) or isinstance(b, VUndef):
             return self.undef_bool()
+        if isinstance(a, VNaN) or isinstance(b, VNaN):
+            return z3.BoolVal(False)          # nan != everything, itself included
         if a is b and not isinstance(a, (VReal,)):
             return z3.BoolVal(True)
+        if _is_j(a) or _is_j(b):
+            from . import jsontree
+            return jsontree.eq(self, a, b)
         if isinstance(a, VNone) or isinstance(b, VNone):
             if isinstance(a, VNone) and isinstance(b, VNone):
                 return z3.BoolVal(True)
@@ -370,6 +390,22 @@ class Interp:
             if len(a.items) != len(b.items):
                 return z3.BoolVal(False)
             return z3.And([self.eq(x, y) for x, y in zip(a.items, b.items)] + [z3.BoolVal(True)])
+        if isinstance(a, VDRec) or isinstance(b, VDRec):
+            if isinstance(a, VDictRec) and drec_shape_ok(a, b.t):
+                a = b.t.wrap(drec_of_literal(a, b.t))
+            if isinstance(b, VDictRec) and drec_shape_ok(b, a.t):
+                b = a.t.wrap(drec_of_literal(b, a.t))
+            if not (isinstance(a, VDRec) and isinstance(b, VDRec) and a.t == b.t):
+                return z3.BoolVal(False)
+            # dict equality: same keys present, equal values on them (values of absent keys are irrelevant)
+            conj = []
+            for fn in a.t.fields:
+                if fn in a.t.optional:
+                    conj.append(a.has(fn) == b.has(fn))
+                    conj.append(z3.Implies(a.has(fn), self.eq(a.field(fn), b.field(fn))))
+                else:
+                    conj.append(self.eq(a.field(fn), b.field(fn)))
+            return z3.And(conj + [z3.BoolVal(True)])
         if isinstance(a, VRec) and isinstance(b, VRec):
             if a.t.nm != b.t.nm:
                 return z3.BoolVal(False)
@@ -418,6 +454,8 @@ class Interp:
                 b = b.val()
         elif isinstance(a, VOpt) or isinstance(b, VOpt):
             a, b = self.force(a), self.force(b)
+        if (isinstance(a, VNaN) and (is_num(b) or isinstance(b, VNaN))) or (isinstance(b, VNaN) and is_num(a)):
+            return z3.BoolVal(False)          # every ordering comparison with nan is False
         if isinstance(a, VNone) or isinstance(b, VNone):
             self.raise_exc("TypeError", "ordering comparison with None")
         if is_num(a) and is_num(b):
@@ -430,6 +468,9 @@ class Interp:
             if getattr(self.ver, "abstract_str_order", False):
                 return self.abstract_str_le(a.e, b.e, strict)
             return (a.e < b.e) if strict else (a.e <= b.e)
+        if type(a).__name__ == "VWStr" and type(b).__name__ == "VWStr":
+            from . import jsontree
+            return jsontree.w_lt(self, a, b, strict)
         if isinstance(a, VTuple) and isinstance(b, VTuple):
             return self._lex(a.items, b.items, strict)
         if isinstance(a, VUn) and isinstance(b, VUn) and a.t == b.t:
@@ -773,6 +814,8 @@ class Interp:
             a, b_ = self.force(a), self.force(b_)
             if isinstance(a, VNone) or isinstance(b_, VNone):
                 return self.eq(a, b_)
+        if _is_j(a) or _is_j(b_):
+            return z3.BoolVal(a is b_)
         if isinstance(a, (VObj, VFunc, VClass, VDictRec, VSeq, VMap, VSet, VOpaque)) or \
                 isinstance(b_, (VObj, VFunc, VClass, VDictRec, VSeq, VMap, VSet, VOpaque)):
             return z3.BoolVal(a is b_)
@@ -1196,6 +1239,17 @@ class Interp:
     def spec_seq_eq(self, n, env):
         return VBool(self.eq(self.ev(n.args[0], env), self.ev(n.args[1], env)))
 
+    def spec_same_value(self, n, env):
+        """same_value(a, b): equality of the two values' encodings (for containers: stronger than ==, which is
+        extensional and quantified; true when b is an unmodified copy of a)"""
+        a, b = self.ev(n.args[0], env), self.ev(n.args[1], env)
+        if isinstance(a, VDictRec) and not a.fields and isinstance(b, VMap):
+            a = self.empty_map(b.t)
+        if isinstance(b, VDictRec) and not b.fields and isinstance(a, VMap):
+            b = self.empty_map(a.t)
+        t = self.join_types([typeof(a), typeof(b)])
+        return VBool(unwrap(a, t) == unwrap(b, t))
+
     def spec_same_obj(self, n, env):
         return VBool(z3.BoolVal(self.ev(n.args[0], env) is self.ev(n.args[1], env)))
 
@@ -1528,6 +1582,8 @@ class Interp:
             return VSeq(z3.K(z3.IntSort(), self.default_of(lt.elem)), z3.IntVal(0), lt.elem, lt.kind)
         if isinstance(v, VDictRec) and not v.fields and isinstance(lt, TMap):
             return self.empty_map(lt)
+        if lt.name in ("JObj", "JList"):
+            return self.coerce_value(v, lt)
         if isinstance(v, VEmptySet) and isinstance(lt, TSet):
             return self.empty_set(lt)
         if isinstance(lt, (TOpt,)) or lt is TReal:
@@ -1610,6 +1666,12 @@ class Interp:
             return self.empty_set(t)
         if isinstance(v, VDictRec) and not v.fields and isinstance(t, TMap):
             return self.empty_map(t)
+        if isinstance(v, VDictRec) and not v.fields and t.name == "JObj":
+            from . import jsontree
+            return jsontree.VJDict()
+        if isinstance(v, VEmptyList) and t.name == "JList":
+            from . import jsontree
+            return jsontree.VJList()
         if isinstance(t, TOpt) and not isinstance(v, VOpt):
             try:
                 return t.wrap(unwrap(v, t))
@@ -2094,6 +2156,9 @@ def _consts_of(e):
                 out.add(x.decl().name())
             st.extend(x.children())
     return out
+def _is_j(v):
+    """python-side JSON model values (pyvc/jsontree.py)"""
+    return type(v).__name__ in ("VJDict", "VJSet", "VJList", "VWStr")
 
 
 class SpecUndef(Exception):
